@@ -587,7 +587,7 @@ var goodFiles = []string{"out/r0.md", "out/r1.md", "docs/report0.txt", "r0.txt",
 func (g *Gen) addResult(c *Cmd) {
 	p := goodFiles[g.R.Intn(len(goodFiles))]
 	if g.Links && g.R.Chance(1, 4) {
-		p = g.oneOf("lnk/tofile", "lnk/tofile", "lnk/todir", "lnk/dangling", "lnk/outside", "lnk/todir/r0.md")
+		p = g.oneOf("lnk/tofile", "lnk/tofile", "lnk/todir", "lnk/dangling", "lnk/outside", "lnk/todir/r0.md", "out/pipe", "lnk/devnull")
 	} else if g.bad() || g.R.Chance(1, 6) {
 		p = g.oneOf("/etc/passwd", "../outside.txt", "out/../../x", ".ergo/plans.jsonl", ".ergo", "out", "missing.txt", "", "out/../r0.txt", "./r0.txt", "out//r0.md", ".ergo/../r0.txt", "..hidden/x", "out/..", "a/../../b")
 	}
